@@ -36,7 +36,9 @@ META = {
         "TypeVars are shared module-level objects (T, U, B bound=int, C constrained (int, str), Ts) as in ordinary user code",
         "type pool for arguments {int, str, bool, List[int]}; field annotations over {T, U, List, Dict[str,.], Optional, Tuple, int}",
         "data are JSON-like (int/str/bool/None/list/dict); strict_coercion=True, debug_trail=ALL (the defaults of Retort())",
-        "a field reached through several base edges with different bindings is ill-typed for typing: only creation is checked",
+        "which declaration of a field a class sees is decided by the MRO (C3), as in Python's data model; a field reached through "
+        "several base edges with different bindings, or seen differently by dataclasses' field collection and get_type_hints(), "
+        "has no defined type: only creation is checked",
         "bare use of a TypeVarTuple (=> *tuple[Any, ...]) is documented as unsupported: skipped by rule",
         "specs that Python's typing / dataclasses / pydantic itself refuses to build are skipped by rule and counted",
     ],
@@ -57,7 +59,7 @@ META = {
             "variable, Tuple[v,w]} and re-annotation of every inherited field; 3-level = 6 roots x quick's 2-level alphabet x small "
             "alphabet with explicit/reversed Generic; 4-level chains over the small alphabet; V-shapes 6x6 (distinct names, "
             "Generic variants) and 4x4 (same names); diamonds A0; A1(A0[..]); A2(A0[..]); A3(A1[..], A2[..]) over the small "
-            "alphabets with equal and different bindings; variadic up to 3 levels (attrs up to 2); NamedTuple/TypedDict also "
+            "alphabets (first arm also re-annotating with v | List[v]) with equal and different bindings; variadic up to 3 levels (attrs up to 2); NamedTuple/TypedDict also "
             "2-level where the kind allows; all 16 argument pairs + bare"
         ),
     },
@@ -211,6 +213,7 @@ LV = {
     "S": {"args": "S", "generic": "S", "own": "S"},
     "Sg": {"args": "S", "generic": "M", "own": "S"},
     "Mq": {"args": "M", "generic": "M", "own": "M"},
+    "Sm": {"args": "S", "generic": "S", "own": "M"},
     "L": {"args": "L", "generic": "L", "own": "L"},
 }
 
@@ -252,13 +255,13 @@ def v_shapes(n_a, n_b, level, generic_level, same_names):
 DIAMOND_ARGS2 = [[var("T"), var("U")], [var("U"), var("T")], [INT, var("T")], [INT, STR]]
 
 
-def diamonds(root_level, mid_level, top_level):
+def diamonds(root_level, first_level, mid_level, top_level):
     """A0; A1(A0[..]) and A2(A0[..]); A3(A1[..], A2[..])"""
     for generic, fields in root_catalogue(root_level):
         if not generic:
             continue
         s0 = {"classes": [mk_class("A0", generic, [], fields)]}
-        mids1 = list(child_classes(s0, "A0", "A1", LV[mid_level], new_name="z1"))
+        mids1 = list(child_classes(s0, "A0", "A1", LV[first_level], new_name="z1"))
         mids2 = list(child_classes(s0, "A0", "A2", LV[mid_level], new_name="z2"))
         if len(generic) == 2:      # the arms over a two-parameter root: same, swapped, partial, concrete, bare only
             keep = [None, *[rg.thaw(a) for a in DIAMOND_ARGS2]]
@@ -401,7 +404,7 @@ def _enumerate_specs(tier):  # noqa: C901
             yield "v_shape", multi, s
         for s in v_shapes(4, 4, "S", "S", same_names=True):
             yield "v_shape_same_names", multi, s
-        for s in diamonds("S", "S", "XS"):
+        for s in diamonds("S", "Sm", "S", "XS"):
             yield "diamond", multi, s
         for s in w_joins():
             yield "w_join", multi, s
@@ -740,7 +743,8 @@ class Evaluator:
         report.outcome(f"{kind}:created")
         if any(len(ts) > 1 for ts in ref.values()):
             report.case(key, nontrivial=False)
-            report.skip("a field is reached through base edges with different bindings (ill-typed for typing): only creation "
+            report.skip("a field is reached through base edges with different bindings, or dataclasses' field collection and "
+                        "get_type_hints() see different declarations of it (diamond whose later arm re-annotates): only creation "
                         "is checked")
             return
         ftypes = {f: next(iter(ref[f])) for f in fields}
